@@ -279,7 +279,8 @@ register("C03", lean_modules=["FsProofs.Properties.C03"], theorems=["Fs.C03.accu
          trusted_base=FLOW_TB + ["accumulation theorems are over exact arithmetic (commutative ring); rounding is covered only by the bit-exact correspondence and the rational oracle with an error bound"])
 register("C04", lean_modules=['FsModel.Router'], theorems=['Fs.Router.route_spec'], gen=gen_single, oracles=[oracle.c04], sections={"recv", "rdist", "rweight", "rcount"}, nontrivial=has_pits_or_multi, tags=tags_flow,
          rule="single router (sequential and parallel), raw and flooded fields; non-trivial = at least two nodes share a receiver", trusted_base=FLOW_TB)
-register("C05", gen=gen_multi, oracles=[oracle.c05], cause=oracle.c05_cause, sections={"recv", "rdist", "rweight", "rcount"},
+register("C05", lean_modules=["FsProofs.Properties.C05"], theorems=["Fs.C05.terminal_row", "Fs.C05.pit_row", "Fs.C05.receivers_row", "Fs.C05.weights_spec", "Fs.C05.foldl_max_spec"],
+         gen=gen_multi, oracles=[oracle.c05], cause=oracle.c05_cause, sections={"recv", "rdist", "rweight", "rcount"},
          nontrivial=has_pits_or_multi, tags=tags_flow,
          rule="multi router x exponents {0, .5, 1, 1.1, 2, 8}, exponent changed between updates, flooded fields; non-trivial = some node has several receivers",
          trusted_base=FLOW_TB + ["weights theorem is over an ordered field with an abstract pow satisfying pow 1 = 1, 0 <= pow x"])
@@ -582,9 +583,9 @@ _lvl("C03", "proof",
 _lvl("C04", "proof",
      "route_spec (all neighbour lists, all elevations over any strict weak order): the router scan keeps the node iff no unmasked neighbour is strictly lower, else returns an unmasked strictly lower neighbour of maximal slope with its distance. Base/masked rows, weights and the parallel variant are model definitions tied by correspondence; oracle recomputes slopes on the implementation's output.",
      "Lean 4 fold-invariant proof of the router scan + bit-exact correspondence + slope oracle")
-_lvl("C05", "translation_validation",
-     "Multi router modelled in Lean (candidate filter, normalised pow weights in the C++ operation order) and compared bit for bit; oracle checks receivers = strictly lower unmasked neighbours, finiteness, proportionality and unit sum in exact rationals. The weight-sum theorem (FsProofs.Weights) is not yet tied to the executed definition.",
-     "bit-exact differential correspondence + exact-rational weight oracle")
+_lvl("C05", "proof",
+     "Theorems about the executed definitions Fs.Flow.multiRow / multiWeights: terminal_row, pit_row, receivers_row (for ANY scalar instance: base-level/masked nodes and nodes without a strictly lower unmasked neighbour are their own single receiver; otherwise the receivers are exactly the unmasked strictly lower neighbours, once per neighbour slot, in neighbour order, with the grid distances), weights_spec (over any linearly ordered field and an abstract pow with pow 1 p = 1 and 0 <= pow x p: for positive slopes the weights are non-negative, sum to one and equal pow(slope/max slope, p) / c for one positive c, i.e. are proportional to slope^p for a multiplicative pow). Positivity of pow for tiny arguments is deliberately not assumed (D3). The Float instance is compared bit for bit; exponent changes between updates and flooded fields are in the generator.",
+     "Lean 4 proofs on the executed definitions (list lemmas; ordered-field arithmetic with abstract pow) + bit-exact correspondence + exact-rational weight oracle")
 _lvl("C06", "proof",
      "Theorems on the executed components: donor table = inverse of the receiver function, without duplicates (mem_donors, donors_nodup); bottom-up order places every node after its receiver (dfs_recv_before) and is a permutation of all nodes on a forest (dfs_perm); every node of the next breadth-first level has all receivers in earlier levels (next_level_receivers). Top-down (Kahn) order and multi-router donors are tied by correspondence + oracle.",
      "Lean 4 stack/queue invariant proofs + bit-exact correspondence + table-consistency oracle")
@@ -950,20 +951,23 @@ def spl_nontrivial(si):
 SPL_TB = FLOW_TB + ["std::pow of the C++ side and Float.pow of the Lean runtime are the same libm function (bit-identical results observed on every compared scenario)",
                     "SPL theorems are over an ordered field (exact arithmetic); rounding is covered by the bit-exact correspondence and the oracle's documented allowance",
                     "the m_linear classification expression and the Newton exit test are regenerated from spl.hpp by translate.py"]
-register("C12", gen=gen_spl, oracles=[oracle.c12], cause=oracle.spl_cause, nontrivial=spl_nontrivial, tags=spl_tags,
+register("C12", lean_modules=["FsProofs.Properties.C12"], theorems=["Fs.C12.nodeStep_skip", "Fs.C12.nodeStep_linear", "Fs.C12.spl_floor", "Fs.C12.spl_nonneg", "Fs.C12.fold_linear", "Fs.C12.contribs_nonneg"],
+         gen=gen_spl, oracles=[oracle.c12], cause=oracle.spl_cause, nontrivial=spl_nontrivial, tags=spl_tags,
          sections={"erosion", "ncorr", "spl"},
          rule="routed graphs (single / parallel single / multi, pflood or spanning-tree resolved or unresolved, masks, interior base levels) x K scalar/array (0 .. 1, x0.1..3 variation) x m in {.3,.5,1} x n in {.5,.8,1,1.5,2,4} x tol x dt in {0,1,10,100,1e4,1e8} x random areas up to 1e6; 1-2 erode() calls per update on one eroder object, elevation = routed field or another field; non-trivial = some erosion is non-zero")
-register("C13", gen=gen_spl, oracles=[oracle.c13], cause=oracle.spl_cause, nontrivial=spl_nontrivial, tags=spl_tags,
+register("C13", lean_modules=["FsProofs.Properties.C12"], theorems=["Fs.C12.spl_residual", "Fs.C12.nodeStep_linear", "Fs.C12.fold_linear", "Fs.Spl.solve_residual"],
+         gen=gen_spl, oracles=[oracle.c13], cause=oracle.spl_cause, nontrivial=spl_nontrivial, tags=spl_tags,
          sections={"erosion", "ncorr", "spl"},
          rule="same scenario family as C12; oracle evaluates the residual of the backward-Euler equation at every non-limited node (double arithmetic with a stated bound: tolerance + 64 eps x sensitivity-weighted magnitudes); non-trivial = some erosion is non-zero")
 for _p in ("C12", "C13"):
     PROPS[_p]["trusted_base"] = SPL_TB
-_lvl("C12", "translation_validation",
-     "spl_eroder::erode is modelled in Lean statement by statement (Fs.Spl.erode over the scalar-operation record; lake test, closed form, Newton loop, clamp) and compared bit for bit (erosion and n_corr) on every run; the oracle checks zero erosion at terminal nodes and in lakes, sign, and no slope reversal on the implementation's doubles. Closed-form theorems (solve_le, erosion_ge) exist for a sum-based formulation not yet tied to the executed fold.",
-     "bit-exact differential correspondence with the Lean model + sign/lake/floor oracle")
-_lvl("C13", "translation_validation",
-     "Same Lean model and correspondence as C12; the oracle evaluates the residual of the implicit equation at every non-limited node against tolerance + rounding bound. The classification of exponents as 'one' and the Newton exit test are regenerated from the source.",
-     "bit-exact differential correspondence with the Lean model + residual oracle")
+_lvl("C12", "proof",
+     "Theorems about the executed definition Fs.Spl.nodeStep over an arbitrary linearly ordered field with abstract pow >= 0: nodeStep_skip (terminal nodes - own receiver: base levels, pits, masked - and nodes not above their lowest receiver's new level are left untouched, for both paths), nodeStep_linear (closed-form path = clamp(floor, solve) of the contributing receivers; other entries untouched), spl_floor (the new elevation is never below the lowest new receiver elevation: no slope reversal), spl_nonneg (erosion >= -tiny when K, dt >= 0, distances > 0 and every receiver's erosion is >= -tiny: the inductive step of non-negativity along the order), for any number of receivers. The Newton path (slope exponent != 1), the rejection of non-linear exponents on multiple-direction graphs and overflow (D13) are tied by the bit-exact correspondence and the oracle only.",
+     "Lean 4 ordered-field proofs on the executed sweep step + translator-regenerated classification/exit test + bit-exact correspondence + sign/lake/floor oracle")
+_lvl("C13", "proof",
+     "Theorem about the executed definition Fs.Spl.nodeStep (closed-form path, exact arithmetic): spl_residual - whenever the step is not limited, new elevation - old + sum over the contributing (not higher) receivers of factor * (new - receiver's new elevation) = 0 with factor = K dt (A w)^m / distance, for any number of receivers. For slope exponents != 1 the Newton iteration is modelled statement by statement (exit test regenerated from the source) and compared bit for bit; that its accepted iterate meets the tolerance is checked by the residual oracle on every run, not proved.",
+     "Lean 4 field proof of the implicit equation on the executed step + bit-exact correspondence of the Newton path + residual oracle")
+
 
 
 # ----------------------------------------------------------------------------- C14
